@@ -393,7 +393,8 @@ Qed.
 
 Definition fn_closed (F : frame) : Prop :=
   (forall n, has (funcs F) n = true -> has (tables F) n = true) /\
-  (forall n, has (globals F) n = true -> has (tables F) n = true).
+  (forall n, has (globals F) n = true -> has (tables F) n = true) /\
+  (forall n, global_sort_ok F n = true).
 
 Section ExprInd.
   Variable P : expr -> Prop.
@@ -419,7 +420,7 @@ End ExprInd.
 Lemma tc_tables_ok : forall F, fn_closed F ->
   forall e pat exp env r, tc F pat e exp env = inr r -> expr_tables_ok F e = true.
 Proof.
-  intros F [Hf Hg]. induction e as [n| | |f0 args IHargs|p args IHargs] using expr_ind'; intros pat exp env r H; simpl in *; auto.
+  intros F [Hf [Hg _]]. induction e as [n| | |f0 args IHargs|p args IHargs] using expr_ind'; intros pat exp env r H; simpl in *; auto.
   - destruct (has (globals F) n) eqn:E; auto.
   - destruct (lookup (funcs F) f0) as [sg|] eqn:E; [|discriminate].
     assert (Hh : has (funcs F) f0 = true) by (unfold has; rewrite E; reflexivity).
@@ -450,10 +451,16 @@ Proof.
   rewrite (tc_tables_ok F HF _ _ _ _ _ Ea). simpl. eapply IH; [|exact H]. lia.
 Qed.
 
+Lemma expr_globals_ok_closed : forall F, fn_closed F -> forall e, expr_globals_ok F e = true.
+Proof.
+  intros F [_ [_ Hs]]. induction e as [n| | |f0 args IHargs|p args IHargs] using expr_ind'; simpl; auto;
+    (induction IHargs as [|a tl Ha Htl IH]; simpl; [reflexivity|rewrite Ha, IH; reflexivity]).
+Qed.
+
 Lemma tc_fact_tables_ok : forall F, fn_closed F -> forall f env r,
   tc_fact F f env = inr r -> fact_tables_ok F f = true.
 Proof.
-  intros F HF [a b|e] env r H; simpl in *.
+  intros F HF [a b|e] env r H; simpl in *; rewrite ?(expr_globals_ok_closed F HF); rewrite ?andb_true_r.
   - destruct (tc F true b None env) as [|[t env1]] eqn:Eb.
     + destruct (tc F true a None env) as [|[t env1]] eqn:Ea; [discriminate|].
       destruct (tc F true b (Some t) env1) as [|[? ?]] eqn:Eb2; [discriminate|].
@@ -480,13 +487,13 @@ Proof.
     apply (tc_tables_ok F HF _ _ _ _ _ E).
   - destruct (lookup (funcs F) f0) as [sg|] eqn:E; [|discriminate].
     assert (Hh : has (funcs F) f0 = true) by (unfold has; rewrite E; reflexivity).
-    destruct HF as [Hf Hg]. rewrite (Hf _ Hh). simpl.
+    pose proof HF as HF0. destruct HF as [Hf Hg]. rewrite (Hf _ Hh). simpl.
     destruct (f_ctor sg); [discriminate|].
     destruct (Nat.eqb (length args) (length (f_ins sg))) eqn:El; simpl in H; [|discriminate].
     apply Nat.eqb_eq in El.
     destruct (tc_args F false args (f_ins sg) env) as [|env1] eqn:Ea; [discriminate|].
     destruct (tc F false v (Some (f_out sg)) env1) as [|[? ?]] eqn:Ev; [discriminate|].
-    rewrite (tc_args_tables_ok F (conj Hf Hg) _ _ _ _ _ El Ea), (tc_tables_ok F (conj Hf Hg) _ _ _ _ _ Ev).
+    rewrite (tc_args_tables_ok F HF0 _ _ _ _ _ El Ea), (tc_tables_ok F HF0 _ _ _ _ _ Ev).
     reflexivity.
   - destruct (tc F false a None env) as [|[t env1]] eqn:Ea; [discriminate|].
     destruct (tc F false b (Some t) env1) as [|[? ?]] eqn:Eb; [discriminate|].
@@ -552,7 +559,7 @@ Qed.
 
 (** an accepted function declaration keeps the state closed; the rejected one of F2 does not *)
 Lemma closed_init : fn_closed init_frame.
-Proof. split; intros n H; discriminate. Qed.
+Proof. split; [|split]; intros n; try discriminate. reflexivity. Qed.
 
 Lemma f2_breaks_closed : exists s' e, step init w_bad_variant = (s', RReject e) /\ ~ fn_closed (fst s').
 Proof.
